@@ -361,6 +361,23 @@ def handle (op : String) (args : List Sexp) : R Sexp := do
     let expV := Spec.expectedVerdict ac kc ps t u
     pure (.list [.list [.atom "spec", ofBool specV], .list [.atom "expected", ofBool expV],
                  .list [.atom "decoded", ofBool decodeOk]])
+  | "validate-pair", [ac, kc, ca, leaf, t, u] => do
+    -- the RFC 5280 validator on two real certificates (issuer, issued), nothing else given
+    let u ← match ← u.asAtom with
+      | "server" => pure Spec.Purpose.serverAuth | "client" => pure Spec.Purpose.clientAuth
+      | s => throw s!"bad purpose {s}"
+    let dec (der : Bytes) : Option Spec.TbsCert :=
+      match Spec.splitSigned der with
+      | some (tbs, _, _) => Spec.decodeTbsCert tbs
+      | none => none
+    match dec (← ca.asBytes), dec (← leaf.asBytes) with
+    | some c, some l =>
+      pure (.list [.atom "ok", ofBool (Spec.validate (← ac.asBool) (← kc.asBool) [c, l] (← t.asInt) u),
+        .list [.atom "names-chain", ofBool (l.issuer == c.subject)],
+        .list [.atom "ca", ofBool (Spec.isCaCert c)], .list [.atom "ca-time", ofBool (Spec.timeValid c (← t.asInt))],
+        .list [.atom "leaf-time", ofBool (Spec.timeValid l (← t.asInt))],
+        .list [.atom "nc", ofBool (Spec.ncAllowsLeaf c l)]])
+    | _, _ => pure (.atom "undecodable")
   | "spki", [k] => do pure (ofBytes (spkiDer (← decKey k)))
   | "sha", [k, b] => do
     let b ← b.asBytes
